@@ -464,6 +464,16 @@ def _getter_key(ctx, cls, test):
                         return copy.deepcopy(body[0].value)
             return c
 
+        def visit_Attribute(self, a):
+            self.generic_visit(a)
+            if isinstance(a.ctx, ast.Load) and isinstance(a.value, ast.Name) and a.value.id == "self":
+                r = ctx.ct.lookup(cls, a.attr)
+                if r and any(ast.unparse(d) in ("property", "functools.cached_property", "cached_property") for d in r[1].decorator_list):
+                    body = [st for st in r[1].body if not (isinstance(st, ast.Expr) and isinstance(st.value, ast.Constant))]
+                    if len(body) == 1 and isinstance(body[0], ast.Return) and body[0].value is not None:
+                        return copy.deepcopy(body[0].value)
+            return a
+
     return _cmp_key(R().visit(copy.deepcopy(test)))
 
 
